@@ -10,6 +10,7 @@ import (
 	"reservoir/metrics"
 	"reservoir/proxy/headers"
 	"reservoir/utils/countingreader"
+	"reservoir/utils/verifhook"
 	"time"
 
 	"golang.org/x/sync/singleflight"
@@ -319,6 +320,7 @@ func (f *fetcher) dedupFetch(req *http.Request, key cache.CacheKey, clientHd *he
 	fetchedObj, err, shared := f.group.Do(key.Hex, func() (any, error) {
 		return f.getFromCacheOrFetch(req, key, clientHd)
 	})
+	verifhook.Point("coalesce.afterDo", key.Hex)
 	if err != nil {
 		if errors.Is(err, ErrNotCacheable) {
 			slog.Debug("Request was not cacheable in singleflight, falling back to direct fetch", "url", req.URL)
